@@ -64,6 +64,11 @@ def gen_case(rng: random.Random):
     if case.btype == "card" and r.random() < 0.35:
         # scores with denominators that are not powers of two (a float round trip does not preserve them)
         ballots = [{k: F(r.randint(0, 9), r.choice([1, 3, 6, 7])) for k in b} for b in ballots]
+    elif case.btype == "card" and r.random() < 0.3:
+        # negative scores: the "largest score" normaliser must leave such projects out even when the whole ballot fits
+        ballots = [{k: (F(-r.randint(1, 4)) if r.random() < 0.35 else v) for k, v in b.items()} for b in ballots]
+        if r.random() < 0.5:
+            budget = sum((c for _, c in case.projects), F(0)) + r.randint(0, 2)  # everything affordable
     return Case(case.projects, budget, case.btype, ballots, seed=sub, multi=multi)
 
 
